@@ -362,6 +362,9 @@ pub fn run_once(s: &Scenario, scratch: &Path) -> Result<RunResult, String> {
             let _ = std::fs::remove_dir_all(&model);
         }
     }
+    // host directories for bind mounts: `current` is a link to `releases/v2`
+    std::fs::create_dir_all(scratch.join("mnt/releases/v2")).map_err(io)?;
+    let _ = std::os::unix::fs::symlink("releases/v2", scratch.join("mnt/current"));
     // a different current directory with a decoy of the same relative shape
     let elsewhere = scratch.join("elsewhere");
     std::fs::create_dir_all(elsewhere.join("fixtures/app")).map_err(io)?;
@@ -402,6 +405,7 @@ pub fn run_once(s: &Scenario, scratch: &Path) -> Result<RunResult, String> {
     }
     cmd.env("PATH", path)
         .env("TMPDIR", &tmp)
+        .env("VERIF_MNT", scratch.join("mnt"))
         .env("CARGO_MANIFEST_DIR", &krate)
         .env("VERIF_STUB_DIR", &stub)
         .env("RUST_BACKTRACE", "0")
@@ -564,21 +568,69 @@ fn chain_with_roots(s: &Scenario) -> Vec<(&BuildNode, usize)> {
     chain
 }
 
+/// The environment pair by which the pack builds of one independent build (root) are told
+/// apart in the recorded history.
+pub const ROOT_MARKER: &str = "VERIF_ROOT";
+
 pub fn judge_c17(s: &Scenario, r: &RunResult) -> Vec<String> {
     let mut v = Vec::new();
-    let chain = chain_of(s);
-    let builds: Vec<&LogEntry> = r
+    let all = chain_with_roots(s);
+    let pack_builds: Vec<&LogEntry> = r
         .log
         .iter()
         .filter(|e| e.prog == "pack" && e.argv.first().map(String::as_str) == Some("build"))
         .collect();
+    let root_of_build = |e: &LogEntry| -> Option<usize> {
+        e.argv.windows(2).find_map(|w| (w[0] == "--env").then(|| w[1].strip_prefix("VERIF_ROOT=")).flatten().and_then(|x| x.parse().ok()))
+    };
+    for e in &pack_builds {
+        if root_of_build(e).is_none() {
+            v.push(format!("pack build without the {ROOT_MARKER} pair every configuration carries: argv {:?}", e.argv));
+        }
+    }
+    let docker_runs: Vec<&LogEntry> = r
+        .log
+        .iter()
+        .filter(|e| e.prog == "docker" && e.argv.first().map(String::as_str) == Some("run"))
+        .collect();
+    // every root (independent `TestRunner::build`, its own test thread) is judged on its own:
+    // its configurations in order against its pack builds, its containers against the docker
+    // runs that use its image
+    let mut claimed: BTreeSet<u64> = BTreeSet::new();
+    for ri in 0..=s.more_roots.len() {
+        let chain: Vec<&BuildNode> = all.iter().filter(|(_, x)| *x == ri).map(|(n, _)| *n).collect();
+        let builds: Vec<&LogEntry> = pack_builds.iter().copied().filter(|e| root_of_build(e) == Some(ri)).collect();
+        let image = builds.first().and_then(|e| parse_pack_build(&e.argv[1..]).ok()).map(|p| p.image);
+        let runs: Vec<&LogEntry> = docker_runs
+            .iter()
+            .copied()
+            .filter(|e| parse_docker_run(&e.argv[1..]).is_ok_and(|d| Some(&d.image) == image.as_ref()))
+            .collect();
+        claimed.extend(runs.iter().map(|e| e.i));
+        v.extend(judge_c17_root(ri, &chain, &builds, &runs, r).into_iter().map(|l| if s.more_roots.is_empty() { l } else { format!("build {ri}: {l}") }));
+    }
+    for e in &docker_runs {
+        if !claimed.contains(&e.i) {
+            v.push(format!("docker run that uses none of the images the builds produced (or does not parse): argv {:?}", e.argv));
+        }
+    }
+    if r.fixture_digest_before != r.fixture_digest_after {
+        v.push("the fixture app directory was modified".into());
+    }
+    for e in r.log.iter().filter(|e| e.prog == "docker" && e.argv.first().map(String::as_str) == Some("exec")) {
+        if e.argv.len() != 4 || e.argv[2] != "launcher" || !e.argv[1].starts_with("libcnbtest_") {
+            v.push(format!("docker exec: argv {:?}, expected <container> launcher <command>", e.argv));
+        }
+    }
+    v
+}
+
+fn judge_c17_root(ri: usize, chain: &[&BuildNode], builds: &[&LogEntry], runs: &[&LogEntry], r: &RunResult) -> Vec<String> {
+    let mut v = Vec::new();
     if builds.len() > chain.len() {
         v.push(format!("{} pack build invocations for {} build configurations", builds.len(), chain.len()));
     }
-    let roots: Vec<usize> = chain_with_roots(s).into_iter().map(|(_, ri)| ri).collect();
-    let mut images: Vec<Option<String>> = vec![None; 1 + s.more_roots.len()];
-    // a root whose first build never reached pack ends the test process: later pack builds
-    // belong to the configurations in order
+    let mut image0: Option<String> = None;
     for (bi, e) in builds.iter().enumerate() {
         let Some(node) = chain.get(bi) else { break };
         let c = &node.cfg;
@@ -589,7 +641,7 @@ pub fn judge_c17(s: &Scenario, r: &RunResult) -> Vec<String> {
                 continue;
             }
         };
-        let img = images[roots[bi]].get_or_insert(p.image.clone()).clone();
+        let img = image0.get_or_insert(p.image.clone()).clone();
         if p.image != img || !p.image.starts_with("libcnbtest_") {
             v.push(format!("pack build #{bi}: image {:?} (first build used {:?})", p.image, img));
         }
@@ -627,6 +679,7 @@ pub fn judge_c17(s: &Scenario, r: &RunResult) -> Vec<String> {
         if c.pack_fails {
             want_env.insert("VERIF_PACK_FAILS".into(), "1".into());
         }
+        want_env.insert(ROOT_MARKER.into(), ri.to_string());
         let got_pairs: Vec<(String, String)> = p.env.iter().map(|kv| split_kv(kv)).collect();
         let got_env: BTreeMap<String, String> = got_pairs.iter().cloned().collect();
         if got_env != want_env || got_pairs.len() != want_env.len() {
@@ -681,11 +734,6 @@ pub fn judge_c17(s: &Scenario, r: &RunResult) -> Vec<String> {
             }
         }
     }
-    let runs: Vec<&LogEntry> = r
-        .log
-        .iter()
-        .filter(|e| e.prog == "docker" && e.argv.first().map(String::as_str) == Some("run"))
-        .collect();
     let mut di = 0;
     let mut si = 0;
     for e in runs {
@@ -696,18 +744,12 @@ pub fn judge_c17(s: &Scenario, r: &RunResult) -> Vec<String> {
                 continue;
             }
         };
-        if !images.iter().flatten().any(|i| *i == d.image) {
-            v.push(format!("docker run: image {:?}, the builds produced {:?}", d.image, images));
-        }
         if d.detach {
-            let Some((cfg, bi)) = want_runs.get(di) else {
+            let Some((cfg, _)) = want_runs.get(di) else {
                 v.push("more detached docker run invocations than start_container calls".into());
                 break;
             };
             di += 1;
-            if images.get(roots[*bi]).and_then(Option::as_ref) != Some(&d.image) {
-                v.push(format!("docker run: container of build configuration #{bi} started from image {:?}, its build produced {:?}", d.image, images.get(roots[*bi])));
-            }
             let want_entry: Vec<String> = cfg.entrypoint.iter().cloned().collect();
             if d.entrypoint != want_entry {
                 v.push(format!("docker run: entrypoint {:?}, configured {:?}", d.entrypoint, cfg.entrypoint));
@@ -736,9 +778,10 @@ pub fn judge_c17(s: &Scenario, r: &RunResult) -> Vec<String> {
                 .mounts
                 .iter()
                 .map(|(s, t)| {
+                    let mnt = r.tmp.parent().map_or_else(|| PathBuf::from("/"), |p| p.join("mnt"));
                     let mut kv = vec![
                         ("type".to_string(), "bind".to_string()),
-                        ("source".to_string(), s.clone()),
+                        ("source".to_string(), scenario::resolve_mount_source(s, &mnt)),
                         ("target".to_string(), t.clone()),
                     ];
                     kv.sort();
@@ -764,36 +807,6 @@ pub fn judge_c17(s: &Scenario, r: &RunResult) -> Vec<String> {
             if d.entrypoint != vec!["launcher".to_string()] || d.command != vec![(*cmd).clone()] || !d.rm {
                 v.push(format!("docker run (shell): entrypoint {:?} command {:?} rm {}, expected launcher {:?} --rm", d.entrypoint, d.command, d.rm, cmd));
             }
-        }
-    }
-    if r.fixture_digest_before != r.fixture_digest_after {
-        v.push("the fixture app directory was modified".into());
-    }
-    // exec: docker exec <container> launcher <command>
-    let mut want_exec: Vec<&String> = Vec::new();
-    for n in &chain {
-        for st in &n.steps {
-            if let Step::StartContainer { steps, .. } = st {
-                for cs in steps {
-                    match cs {
-                        CStep::ShellExec(c) => want_exec.push(c),
-                        CStep::Nested { steps, .. } => {
-                            for inner in steps {
-                                if let CStep::ShellExec(c) = inner {
-                                    want_exec.push(c);
-                                }
-                            }
-                        }
-                        _ => {}
-                    }
-                }
-            }
-        }
-    }
-    let _ = want_exec;
-    for e in r.log.iter().filter(|e| e.prog == "docker" && e.argv.first().map(String::as_str) == Some("exec")) {
-        if e.argv.len() != 4 || e.argv[2] != "launcher" || !e.argv[1].starts_with("libcnbtest_") {
-            v.push(format!("docker exec: argv {:?}, expected <container> launcher <command>", e.argv));
         }
     }
     v
